@@ -383,6 +383,42 @@ fn blocking_api() -> Out {
     Out { name: "blocking_api", ok: ok.is_ok(), detail: ok.err().unwrap_or_default(), trace: tr }
 }
 
+/// BOUNDED stand-in for blocking_*_with_timeout_impl (std::thread + nested runtime: outside the verifier's reach).
+/// Real time, generous margins: handler holds the actor for 1500 ms, timeouts are 100 ms.
+fn blocking_timeout() -> Out {
+    let rt = tokio::runtime::Builder::new_multi_thread().worker_threads(2).enable_all().build().unwrap();
+    let log = new_log();
+    let (r, h) = rt.block_on(async { spawn_with_mailbox_capacity::<Probe>(args(&log), 1) });
+    let mut ok: Result<(), String> = Ok(());
+    rt.block_on(async { r.tell(Msg { id: 1, sleep_ms: 1500 }).await.unwrap(); tokio::time::sleep(Duration::from_millis(100)).await; r.tell(Msg { id: 2, sleep_ms: 0 }).await.unwrap(); });
+    let c0 = dl();
+    let r2 = r.clone();
+    let t0 = std::time::Instant::now();
+    let (a, ea, b, eb) = std::thread::spawn(move || {
+        let a = r2.blocking_tell(Msg { id: 3, sleep_ms: 0 }, Some(Duration::from_millis(100))); let ea = t0.elapsed();
+        let b = r2.blocking_ask(Msg { id: 4, sleep_ms: 0 }, Some(Duration::from_millis(100))); let eb = t0.elapsed();
+        (a, ea, b, eb)
+    }).join().unwrap();
+    if !matches!(a, Err(rsactor::Error::Timeout { .. })) { ok = Err(format!("blocking_tell with timeout on a full mailbox returned {a:?}")); }
+    if ok.is_ok() && !matches!(b, Err(rsactor::Error::Timeout { .. })) { ok = Err(format!("blocking_ask with timeout on a full mailbox returned {b:?}")); }
+    if ok.is_ok() && (ea < Duration::from_millis(100) || eb > Duration::from_millis(1200)) { ok = Err(format!("blocking timeouts returned after {ea:?} / {eb:?} (deadlines 100ms each)")); }
+    if ok.is_ok() && dl_enabled() && dl() != c0 + 2 { ok = Err(format!("blocking timeouts recorded {} dead letters, expected 2", dl() - c0)); }
+    // callable from inside a runtime context without panicking
+    let r3 = r.clone();
+    let inside = std::panic::catch_unwind(std::panic::AssertUnwindSafe(|| rt.block_on(async { r3.blocking_tell(Msg { id: 5, sleep_ms: 0 }, Some(Duration::from_millis(3000))) })));
+    match inside { Ok(Ok(())) => {}, Ok(Err(e)) => if ok.is_ok() { ok = Err(format!("blocking_tell(Some) inside a runtime context failed: {e:?}")) }, Err(_) => if ok.is_ok() { ok = Err("blocking_tell(Some) panicked inside a runtime context".into()) } }
+    std::thread::sleep(Duration::from_millis(400));
+    rt.block_on(async { r.stop().await.unwrap(); let _ = join(h).await; });
+    let c1 = dl();
+    let r4 = r.clone();
+    let e = std::thread::spawn(move || r4.blocking_tell(Msg { id: 6, sleep_ms: 0 }, Some(Duration::from_millis(500)))).join().unwrap();
+    if ok.is_ok() && !matches!(e, Err(rsactor::Error::Send { .. })) { ok = Err(format!("blocking_tell(Some) to a stopped actor returned {e:?}")); }
+    if ok.is_ok() && dl_enabled() && dl() != c1 + 1 { ok = Err(format!("blocking_tell(Some) to a stopped actor recorded {} dead letters, expected 1", dl() - c1)); }
+    let tr = trace(&log);
+    if ok.is_ok() && handled(&tr) != vec![1, 2, 5] { ok = Err(format!("a blocking send that reported Timeout was delivered anyway (or an accepted one was lost): handled {:?}, expected [1, 2, 5]", handled(&tr))); }
+    Out { name: "blocking_timeout", ok: ok.is_ok(), detail: ok.err().unwrap_or_default(), trace: tr }
+}
+
 #[cfg(feature = "metrics")]
 async fn metrics_counts() -> Out {
     let log = new_log();
@@ -414,7 +450,7 @@ fn main() {
             let vs: Vec<String> = vd.violations.iter().map(|s| format!("\"{}\"", esc(s))).collect();
             println!("{{\"scenario\": \"{}\", \"ok\": false, \"violations\": [{}], \"trace\": [{}]}}", esc(&format!("{sc:?}")), vs.join(", "), tr.join(", "));
         }
-        return;
+        std::process::exit(0); // do not wait for a stuck scenario thread
     }
     let want = |n: &str| which.is_empty() || which.iter().any(|w| w == n);
     let rt = || tokio::runtime::Builder::new_current_thread().enable_all().start_paused(true).build().unwrap();
@@ -432,6 +468,7 @@ fn main() {
     if want("erased_handles") { emit(rt().block_on(erased_handles())); }
     if want("identity_and_liveness") { emit(rt().block_on(identity_and_liveness())); }
     if want("blocking_api") { emit(blocking_api()); }
+    if want("blocking_timeout") { emit(blocking_timeout()); }
     #[cfg(feature = "metrics")]
     if want("metrics_counts") { emit(tokio::runtime::Builder::new_current_thread().enable_all().build().unwrap().block_on(metrics_counts())); }
 }
